@@ -11,6 +11,7 @@ package nitro
 import "os"
 import "bufio"
 import "errors"
+import "io"
 
 var (
 	// DiskBlockSize - backup file reader and writer
@@ -128,6 +129,13 @@ func (f *rawFileReader) ReadItem() (*Item, error) {
 	itm, checksum, err := f.db.DecodeItem(f.version, f.buf, f.r)
 	if itm != nil { // Checksum excludes terminal nil item
 		f.checksum = f.checksum ^ checksum
+	} else if err == nil {
+		// The terminator is the last record of a file. Bytes after it mean that a
+		// damaged length field was taken for the terminator, and the records it
+		// hides may cancel out of the XOR checksum.
+		if _, perr := f.r.Peek(1); perr != io.EOF {
+			err = ErrCorruptSnapshot
+		}
 	}
 	return itm, err
 }
